@@ -179,7 +179,14 @@ def episode_learner(case, k):
 
 def episode_case(case, k):
     cfg, env = episodes(case)[k]
-    return {"cfg": cfg, "env": env, "learner": episode_learner(case, k)}
+    return {"cfg": cfg, "env": env, "learner": episode_learner(case, k), "experiment_seed": case.get("experiment_seed")}
+
+
+def effective_seed(case):
+    """the seed SafeLearner's generator must be built with: the evaluator's own seed whenever it is not None (0 and 0.0 are
+    seeds!), else the experiment's seed; None = time-seeded (no draw can be predicted)"""
+    own = mk(case["learner"].get("pmf_seed"))
+    return own if own is not None else case.get("experiment_seed")
 
 
 def run_history(case):
@@ -204,6 +211,12 @@ def run_history(case):
     outs = []
     old_logger = CobaContext.logger
     CobaContext.logger = NullLogger()
+    had_seed = "experiment_seed" in CobaContext.store
+    old_seed = CobaContext.store.get("experiment_seed")
+    if case.get("experiment_seed") is not None:
+        CobaContext.store["experiment_seed"] = case["experiment_seed"]      # what Experiment.run(seed=…) leaves for the evaluators
+    else:
+        CobaContext.store.pop("experiment_seed", None)
     try:
         for k, (cfg, envd) in enumerate(episodes(case)):
             L = episode_learner(case, k)
@@ -214,10 +227,10 @@ def run_history(case):
             try:
                 if case.get("reuse_evaluator"):
                     if shared_ev is None:
-                        shared_ev = SequentialCB(record=list(cfg["record"]), learn=cfg["learn"], eval=cfg["eval"], seed=L.get("pmf_seed"))
+                        shared_ev = SequentialCB(record=list(cfg["record"]), learn=cfg["learn"], eval=cfg["eval"], seed=mk(L.get("pmf_seed")))
                     ev = shared_ev
                 else:
-                    ev = SequentialCB(record=list(cfg["record"]), learn=cfg["learn"], eval=cfg["eval"], seed=L.get("pmf_seed"))
+                    ev = SequentialCB(record=list(cfg["record"]), learn=cfg["learn"], eval=cfg["eval"], seed=mk(L.get("pmf_seed")))
                 env = CaseEnv(envd["inters"], envd.get("batch"), envd.get("gen", False))
                 rows = list(SafeEvaluator(ev).evaluate(env, given))
                 out["rows"] = [canon_row(r) for r in rows]
@@ -229,6 +242,10 @@ def run_history(case):
     finally:
         CobaContext.logger = old_logger
         CobaContext.learning_info.clear()
+        if had_seed:
+            CobaContext.store["experiment_seed"] = old_seed
+        else:
+            CobaContext.store.pop("experiment_seed", None)
     return outs
 
 
@@ -326,6 +343,8 @@ def exc_class(case, impl):
     absent = ("context" not in first) or ("probability" not in first and cfg["learn"] == "off") or ("actions" not in first)
     if exc == "TypeError" and batched and absent and ("'NoneType' object is not iterable" in msg or "'NoneType' object is not subscriptable" in msg):
         return "raises:TypeError:none-arg:batched-absent-field"
+    if exc == "KeyError" and "probability" in msg and "probability" in first and any("probability" not in idict(p_) for p_ in env["inters"]):
+        return "raises:KeyError:probability:later-interaction-without-probability"     # finding F8, the other direction
     return "raises:%s:%s" % (exc, "".join(ch if ch.isalnum() else "-" for ch in msg[:40]))
 
 
@@ -374,6 +393,10 @@ def monitor(case, impl):
     pos = 0
     exp_rows = []
     unknown_draw = False
+    draw_rng = None
+    if L["fmt"] in ("pmf", "pmfK") and effective_seed(case) is not None:
+        from coba.random import CobaRandom
+        draw_rng = CobaRandom(effective_seed(case))     # SafeLearner(learner, seed): one choicew per predicted row, rows in order
     infos_pred, infos_learn = {}, {}
 
     def bad(what, sig):
@@ -418,7 +441,18 @@ def monitor(case, impl):
             d = idict(pairs)
             ctx = cn(mk(d.get("context")))
             ret = rets[r]
-            if ret is not None and ret.get("pmf") is not None:
+            if ret is not None and ret.get("pmf") is not None and draw_rng is not None:
+                # the action SafeLearner must have drawn: CobaRandom(effective seed).choicew(actions, pmf), one draw per row in order
+                ws_f = [float(Fraction(w[1], w[2])) for w in ret["pmf"][1]]
+                ea, ep = draw_rng.choicew(mk(d["actions"]), ws_f)
+                c = calls[pos] if (learn in ("on", "ips") and pos < len(calls) and calls[pos]["m"] == "learn") else None
+                if c is not None and not (ceq(c["a"], cn(ea)) and ceq(c["p"], cn(ep))):
+                    bad("interaction %d: the learner answered the PMF %s; with SequentialCB(seed=%r) and experiment seed %r the action must be drawn by "
+                        "CobaRandom(%r): action=%s probability=%s, but learn received action=%s probability=%s"
+                        % (lo + r, ret["pmf"][1], mk(L.get("pmf_seed")), case.get("experiment_seed"), effective_seed(case), cn(ea), cn(ep), c["a"], c["p"]),
+                        "trace:pmf-draw:seed")
+                ret = dict(ret, a=cn(ea), p=cn(ep))
+            elif ret is not None and ret.get("pmf") is not None:
                 # PMF answer: SafeLearner drew the action.  With on-policy learning the learn call shows which; it must be an
                 # action of this interaction with positive mass and the probability handed on must be that mass.
                 c = calls[pos] if (learn in ("on", "ips") and pos < len(calls) and calls[pos]["m"] == "learn") else None
@@ -470,8 +504,10 @@ def monitor(case, impl):
                 names = {"ctx": "context", "a": "action", "r": "reward", "p": "probability", "kw": "kwargs"}
                 for k in ("ctx", "a", "r", "p", "kw"):
                     if not ceq(c[k], want[k], tol=(k == "r")):
-                        bad("interaction %d (%s): learn received %s=%s, the property demands %s" % (lo + r, mode, names[k], c[k], want[k]),
-                            "trace:learn-%s:learn=%s" % (names[k], learn))
+                        sg = "trace:learn-%s:learn=%s" % (names[k], learn)
+                        if k == "p" and learn == "off" and c[k] is None and "probability" not in first and "probability" in d:
+                            sg += ":first-interaction-without-probability"      # has_prob is read off the first interaction (finding F8)
+                        bad("interaction %d (%s): learn received %s=%s, the property demands %s" % (lo + r, mode, names[k], c[k], want[k]), sg)
                 pos += 1
             if "context" in rec:
                 row["context"] = ctx
@@ -588,7 +624,8 @@ def model_request(case, s0=(0, 0)):
                "il": [[k, vstr(mk(v))] for k, v in e.get("il", [])] if L.get("info") else []} for e in L["script"]]
     return {"cfg": {"learn": cfg["learn"], "eval": cfg["eval"], "record": cfg["record"]}, "batch": env.get("batch"),
             "env": menv, "learner": dict({"has_score": L["has_score"], "script": script},
-                                         **({"pmf_seed": L["pmf_seed"]} if L["fmt"] in ("pmf", "pmfK") else {})), "s0": list(s0)}
+                                         **({"pmf_seed": int(effective_seed(case))} if L["fmt"] in ("pmf", "pmfK") and effective_seed(case) is not None else {})),
+            "s0": list(s0)}
 
 
 def mval(sv):
@@ -654,6 +691,8 @@ def compare_A(case, impl, ans):
         m = ans["modelIB"] if case["env"].get("batch") else ans["modelI"]
     if case["learner"]["fmt"] in ("pmf", "pmfK"):
         m = ans["modelP"]
+        if m is None:
+            return fails            # time-seeded generator (no seed anywhere): the draws cannot be predicted
     mode = "learn=%s,eval=%s" % (case["cfg"]["learn"], case["cfg"]["eval"])
     if m["kind"] == "error":
         if m["err"] == "missing":
@@ -690,7 +729,22 @@ def compare_A(case, impl, ans):
     return fails
 
 
-def compare_C(ans, batched=False):
+def regroup(calls, n_inters, bs):
+    """un-batched call list -> the batched one for a history-independent learner (theorem batched_trace_regrouped): per batch all
+    predicts, all scores, all learns"""
+    if n_inters == 0 or len(calls) % n_inters:
+        return None
+    g = len(calls) // n_inters
+    groups = [calls[i * g:(i + 1) * g] for i in range(n_inters)]
+    out = []
+    for lo in range(0, n_inters, bs):
+        chunk = [c for grp in groups[lo:lo + bs] for c in grp]
+        for kind in ("predict", "score", "learn"):
+            out += [c for c in chunk if c["m"] == kind]
+    return out
+
+
+def compare_C(ans, batched=False, oblivious=None):
     """model |= spec whenever the refinement theorems' hypotheses hold (plumbing guard): un-batched model = specRun,
     and for a batched case also batched model = specRunB"""
     if not ans.get("hyp"):
@@ -704,6 +758,11 @@ def compare_C(ans, batched=False):
         if sb is None or m != sb:
             out.append(F("C", "hypotheses of trace_eq_spec_batched/rows_eq_spec_batched hold but model %s != specRunB %s"
                          % (json.dumps(m)[:200], json.dumps(sb)[:200]), "C:refinement-batched"))
+        if oblivious and m.get("kind") == "ok" and u.get("kind") == "ok":
+            want = regroup(u["calls"], oblivious[0], oblivious[1])
+            if want is not None and want != m["calls"]:
+                out.append(F("C", "history-independent learner: batched trace %s is not the regrouped un-batched trace %s"
+                             % (json.dumps(m["calls"])[:200], json.dumps(want)[:200]), "C:regrouped"))
     return out
 
 
@@ -951,10 +1010,13 @@ def gen_episode(rng, boundary=False, cfg_fixed=None):
             pairs = rng.shuffle(pairs) if i == 0 else [[k, idict(pairs)[k]] for k, _ in inters[0]]
         inters.append(pairs)
     batch = None if rng.chance(0.6) else rng.choice([1, 2, 2, 3, 4])
-    if has_prob and len(inters) > 1 and learn != "off" and batch is None and rng.chance(0.12):
+    if has_prob and len(inters) > 1 and batch is None and rng.chance(0.12):
         # a log where only some interactions carry a propensity (LoggedInteraction leaves the key out when none is given; OpeRewards
         # reads a missing one as 1, interaction by interaction): the first has none, some later ones do
-        inters = [[kv for kv in p_ if kv[0] != "probability" or (q > 0 and (q == 1 or rng.chance(0.6)))] for q, p_ in enumerate(inters)]
+        if rng.chance(0.7):
+            inters = [[kv for kv in p_ if kv[0] != "probability" or (q > 0 and (q == 1 or rng.chance(0.6)))] for q, p_ in enumerate(inters)]
+        else:   # the other direction: the first has one, the second (and maybe others) has none
+            inters = [[kv for kv in p_ if kv[0] != "probability" or q == 0 or (q > 1 and rng.chance(0.6))] for q, p_ in enumerate(inters)]
     env = {"batch": batch, "gen": rng.chance(0.5), "inters": inters}
 
     return cfg, env, (astyle if has_actions else "int")
@@ -997,7 +1059,8 @@ def gen_learner(rng, cfgs, envs, allow_pmf=True, has_score=None):
                        "kw": {k: gen_any(rng, 1) for k in kw_keys}, "s": rng.choice([[1, 2], [1, 4], [1, 1], [0, 1], [3, 4]])})
     L = {"fmt": fmt, "has_score": has_score, "batch_mode": rng.choice(["aware", "unaware"]), "kw_keys": kw_keys, "script": script}
     if fmt in ("pmf", "pmfK"):
-        L["pmf_seed"] = rng.choice([1, 2, 7, 42, 1000003])
+        # SequentialCB(seed=…): 0 and 0.0 are seeds like any other; None falls back to the experiment's seed (set by the case)
+        L["pmf_seed"] = rng.choice([0, 0, {"f": [0, 1]}, 1, 1, 7, 42, 1000003, None, None])
         for e in script:
             e["pm"] = [[n_, [list(w) for w in rng.choice(PMFS[n_])]] for n_ in range(1, 6)]
     def info_ok(e_):
@@ -1049,6 +1112,8 @@ def gen_case(rng, tier="quick", boundary=False):
             then.append({"cfg": c2, "env": e2})
     L = gen_learner(rng, [cfg] + [t["cfg"] for t in then], [env] + [t["env"] for t in then])
     case = {"cfg": cfg, "env": env, "learner": L}
+    if L["fmt"] in ("pmf", "pmfK"):
+        case["experiment_seed"] = rng.choice([None, None, 5, 11, 0]) if L["pmf_seed"] is not None else rng.choice([5, 11, 0, 3, None])
     if then:
         case["then"] = then
         L["prewrap"] = rng.chance(0.5)
@@ -1130,6 +1195,20 @@ def corpus_cases():
     for learn, ev, hs in (("ips", "ips", False), ("ips", None, False), (None, "ips", False), (None, "ips", True), ("on", "ips", False)):
         if learn != "on":
             add(learn, ev, ["reward"], het, fmt="AP", script=one_a, has_score=hs)
+    # PMF answers under SequentialCB(seed=0 / 0.0 / 1 / None) with and without an experiment seed: the draw follows CobaRandom(own seed)
+    # whenever the own seed is not None
+    pm = [[n_, [list(w) for w in PMFS[n_][0]]] for n_ in range(1, 6)]
+    pscript = [{"idx": 0, "free": 0, "p": [1, 2], "kw": {"i": 1}, "s": [1, 2], "pm": pm},
+               {"idx": 0, "free": 0, "p": [1, 2], "kw": {"i": 2}, "s": [1, 2], "pm": [[n_, [list(w) for w in PMFS[n_][-1]]] for n_ in range(1, 6)]}]
+    for own in (0, {"f": [0, 1]}, 1, None):
+        for exp in (None, 5):
+            if own is None and exp is None:
+                continue
+            for fmt, batch in (("pmf", None), ("pmfK", 2)):
+                cs.append({"cfg": {"learn": "on", "eval": "on", "record": dflt}, "env": {"batch": batch, "gen": False, "inters": sim + sim},
+                           "learner": dict(L(fmt=fmt, kw=("i",) if fmt == "pmfK" else (), script=pscript), pmf_seed=own), "experiment_seed": exp})
+    # Lean example off_policy_probability_per_interaction_example (finding F8)
+    add("off", None, [], [[["context", 1], ["action", 2], ["reward", 3]], [["context", 2], ["action", 3], ["reward", 4], ["probability", {"f": [1, 4]}]]])
     # tiny logged propensities with the learner playing the logged action (idx 0 of a one-entry script; logged action = actions[0])
     for pr in ([1, 4096], [1, 10000], [1, 10 ** 9], [1, 2 ** 30]):
         tiny = [[["context", i], ["actions", {"l": [7, 8, 9]}], ["rewards", {"l": [1, 2, 3]}], ["action", 7], ["reward", {"f": [i + 1, 2]}], ["probability", {"f": pr}]]
@@ -1193,10 +1272,13 @@ class C06(Property):
         "numbers are exact rationals of the doubles; contexts, actions, probabilities, kwargs, extras are compared exactly; only computed rewards "
         "(r/p, score*r/p) are compared with relative tolerance 1e-12 against the model's exact rationals",
         "a batch-level learner call is read as its rows in order (batch-aware recorder) or is replaced by per-row calls by SafeLearner (batch-unaware recorder)",
-        "learning_info is modelled for un-batched evaluation only (in a batched pass Unbatch indexes subscriptable info values; not modelled, not generated)",
+        "learning_info in a batched pass is modelled with Unbatch's indexing of subscriptable values (Subscript.idx = Python v[i] on the canonical "
+        "list/str forms); generated only where every row has an extra field (a batch row without any Batch.List cell is never un-batched)",
+        "dr/dm reward targets are not modelled (OpeRewards('DM'/'DR') needs vowpalwabbit at construction); only the IPS target plumbing is",
     ]
     assumptions = ["modes dr/dm and record 'ope_loss' need vowpalwabbit (excluded by the property)",
-                   "environments are homogeneous (every interaction has the keys of the first), every interaction has at least one of "
+                   "environments are homogeneous (every interaction has the keys of the first) except that 'probability' may be present in some "
+                   "interactions only (un-batched logs); every interaction has at least one of "
                    "context/actions/action, and action sets have no duplicates under ==",
                    "extra field names and learning_info keys are disjoint from coba's reserved names (context, actions, rewards, action, reward, "
                    "probability, feedbacks, learn_rewards, eval_rewards, predict_time, learn_time) and from each other",
@@ -1205,7 +1287,10 @@ class C06(Property):
                         "pinned by test_off_ips_actions_no_prob); witness validate_counterexample",
                         "batched_eq_unbatched / batched_trace_eq_unbatched": "hold for history-independent learners only -- for stateful learners the runs "
                         "legitimately differ; the exact difference is batched_calls_shape + batched_row_predicted_before_learning",
-                        "info_row_local": "learning_info is modelled for un-batched evaluation only"}
+                        "off_policy_logged": "stated under Hyp (homogeneous environments); for the logged probability the model reads each interaction's "
+                        "own key (fix C06-F8, logged_probability_read_per_interaction, off_policy_probability_per_interaction_example); until the fix "
+                        "is committed /repo passes None / raises KeyError there (known C06-F8, C06-F8b)",
+                        "batched_trace_regrouped": "history-independent learners only (exact side condition Oblivious + Hyp)"}
 
     def corpus(self):
         return corpus_cases()
@@ -1241,7 +1326,7 @@ class C06(Property):
                 if "rewards" in d:
                     etags.append("rewards:" + (d["rewards"]["rfn"]["kind"] if "rfn" in d["rewards"] else "list"))
                 etags.append("extras:%d" % len([x for x in d if x not in RESERVED]))
-                if "probability" in d and any(mk(idict(p_)["probability"]) is not None and mk(idict(p_)["probability"]) < 0.001 for p_ in env["inters"]):
+                if any(mk(idict(p_).get("probability")) is not None and mk(idict(p_).get("probability")) < 0.001 for p_ in env["inters"]):
                     etags.append("tiny-logged-probability")
             if impl["exc"]:
                 etags.append("raised:" + impl["exc"])
@@ -1257,7 +1342,8 @@ class C06(Property):
                     etags.append("A-skipped:documented-but-unenforced-requirement")
                 elif not any(f["kind"] == "B" and f["sig"] != "not-rejected-upfront:missing=probability" for f in efails):
                     efails += compare_A(ecase, impl, ans)
-                efails += compare_C(ans, bool(env.get("batch")) and bool(env["inters"]))
+                obl = (len(env["inters"]), env["batch"]) if (env.get("batch") and len(L["script"]) == 1 and L["fmt"] not in ("pmf", "pmfK")) else None
+                efails += compare_C(ans, bool(env.get("batch")) and bool(env["inters"]), obl)
                 if ans.get("hyp"):
                     etags.append("hyp")
             if L.get("info"):
